@@ -3,6 +3,6 @@
 export GOFLAGS=-mod=mod GOPROXY=off GOSUMDB=off GOTOOLCHAIN=local
 S=/var/tmp/verif-scratch/${VERIF_DEV:-dev}
 R=${VERIF_REPO:-/repo}
-H=$( (echo $R; git -C $R rev-parse HEAD; git -C $R diff; cat /verif/sim/bridge/rootpkg/*.go /verif/sim/rt/*.go /verif/sim/instrument/*.go /verif/sim/prepare.sh) | md5sum | cut -c1-16)
-[ -d $S/gluon ] && [ "$(cat $S/.repohash 2>/dev/null)" = "$H" ] || { rm -rf $S/gluon; /verif/sim/prepare.sh $S && echo $H > $S/.repohash; }
-rsync -a --delete --delete-excluded --exclude go.sum $( [ -z "${VERIF_DEV_ALL:-}" ] && echo --exclude-from=/verif/sim/harness/.wip ) /verif/sim/harness/ $S/harness/ && cd $S/harness && { [ -f go.sum ] || cp /repo/go.sum .; } && go1.26.8 "$@"
+H=$( (echo $R; git -C $R rev-parse HEAD; git -C $R diff; cat ${VERIF_HOME:-/verif}/sim/bridge/rootpkg/*.go ${VERIF_HOME:-/verif}/sim/rt/*.go ${VERIF_HOME:-/verif}/sim/instrument/*.go ${VERIF_HOME:-/verif}/sim/prepare.sh) | md5sum | cut -c1-16)
+[ -d $S/gluon ] && [ "$(cat $S/.repohash 2>/dev/null)" = "$H" ] || { rm -rf $S/gluon; ${VERIF_HOME:-/verif}/sim/prepare.sh $S && echo $H > $S/.repohash; }
+rsync -a --delete --delete-excluded --exclude go.sum $( [ -z "${VERIF_DEV_ALL:-}" ] && echo --exclude-from=${VERIF_HOME:-/verif}/sim/harness/.wip ) ${VERIF_HOME:-/verif}/sim/harness/ $S/harness/ && cd $S/harness && { [ -f go.sum ] || cp /repo/go.sum .; } && go1.26.8 "$@"
